@@ -474,7 +474,7 @@ def produce_er(case, d):
             if case["stored"][u] == "R3":
                 # with segment times: the command must strip them
                 t = torch.stack([t, torch.arange(len(seq)), torch.arange(len(seq)) + 1], -1) if len(seq) else t.new_zeros((0, 3))
-            save(os.path.join(dd, fname(case, u)), t)
+            save(os.path.join(dd, fname(case, u)), t, link=bool(case.get("linked")))
         plant(dd, case["distract"])
     flags = affix_flags(case)
     names = None
@@ -757,7 +757,7 @@ def produce_mvn(case, d):
     fd, o = os.path.join(d, "feats"), os.path.join(d, "stats.pt")
     os.makedirs(fd)
     for u in case["feats"]:
-        save(os.path.join(fd, fname(case, u)), mvn_tensor(case, u))
+        save(os.path.join(fd, fname(case, u)), mvn_tensor(case, u), link=bool(case.get("linked")))
     plant(fd, case["distract"])
     argv = [fd, o] + affix_flags(case)
     if case["dim"] != -1:
